@@ -287,38 +287,66 @@ def judge_model(ctx, vec, rng, kind, variant):
     vals = [smooth_vals(rng, nat, 3e-26), smooth_vals(rng, g2, 2e-26)]
     cls0 = bin_class(vec)
     v = dict(vec, kind='model', model=kind, variant=variant, vals=vals)
-    cls = 'model:%s:%s' % (kind, variant)
-    try:
-        m = build_model(kind, grids, vals)
-        gf, sf, _, _ = m.model()
-        try:
-            gc, sc, _, _ = m.model(wngrid=oc)
-            gu, su, _, _ = m.model(wngrid=oc, cutoff_grid=False)
-        except Exception as e:
-            ctx.verdict('pointwise_independent', False, cls=cls, detail='the restricted computation raised %r (full one succeeded)' % (e,), vector=v)
-            return
-    finally:
-        OpacityCache().clear_cache()
-    gf, sf, gc, sc = np.asarray(gf), np.asarray(sf), np.asarray(gc), np.asarray(sc)
-    ctx.verdict('native_grid_is_longest', np.array_equal(gf, np.array(nat)), cls=cls,
-                detail='full grid has %d points, longest molecule grid %d' % (len(gf), len(nat)), vector=v)
-    ctx.verdict('pointwise_independent', np.array_equal(np.asarray(gu), gf) and np.array_equal(np.asarray(su), sf),
-                cls=cls + ':cutoff_grid=False', detail='cutoff_grid=False must be the full computation', vector=v)
-    if not all(x in gf for x in gc):
-        ctx.verdict('pointwise_independent', False, cls=cls, detail='clipped grid is not part of the native grid', vector=v)
-        return
-    idx = [int(np.where(gf == x)[0][0]) for x in gc]
-    bad = [(float(gc[k]), float(sc[k]), float(sf[i])) for k, i in enumerate(idx) if not close(sc[k], sf[i], rel=REL)]
-    ctx.verdict('pointwise_independent', not bad, cls=cls,
-                detail='%d of %d points differ, e.g. (wn, restricted, full) %r' % (len(bad), len(idx), bad[:2]), vector=v)
-    if cls0 is None or len(gc) < 2:
-        return
     binner = FluxBinner(wngrid=oc, wngrid_width=ow)
-    bf = np.asarray(binner.bin_model((gf, sf, None, None))[1])
-    bc = np.asarray(binner.bin_model((gc, sc, None, None))[1])
-    equal = all(same(x, y) for x, y in zip(bc, bf))
-    ctx.verdict('binning_commutes', equal, cls='model:%s:%s' % (kind, cls0),
-                detail='binned(restricted) %r != binned(full) %r' % ([float(x) for x in bc], [float(x) for x in bf]), vector=v)
+    # every entry point that returns model spectra: model() the sum, model_contrib() one spectrum per contribution,
+    # model_full_contrib() one per molecule -- each returned spectrum is a model spectrum of the statement
+    for entry in MODEL_ENTRIES:
+        cls = 'model:%s:%s' % (kind, variant) + ('' if entry == 'model' else ':' + entry)
+        try:
+            m = build_model(kind, grids, vals)
+            f = getattr(m, entry)
+            gf, full = entry_spectra(entry, f())
+            try:
+                gc, clipped = entry_spectra(entry, f(wngrid=oc))
+                gu, uncut = entry_spectra(entry, f(wngrid=oc, cutoff_grid=False))
+            except Exception as e:
+                ctx.verdict('pointwise_independent', False, cls=cls, detail='the restricted computation raised %r (full one succeeded)' % (e,), vector=v)
+                continue
+        finally:
+            OpacityCache().clear_cache()
+        ctx.verdict('native_grid_is_longest', np.array_equal(gf, np.array(nat)), cls=cls,
+                    detail='full grid has %d points, longest molecule grid %d' % (len(gf), len(nat)), vector=v)
+        ctx.verdict('pointwise_independent', np.array_equal(gu, gf) and [x for x, _ in uncut] == [x for x, _ in full]
+                    and all(np.array_equal(su, sf) for (_, su), (_, sf) in zip(uncut, full)),
+                    cls=cls + ':cutoff_grid=False', detail='cutoff_grid=False must be the full computation', vector=v)
+        if not len(gc) or not all(x in gf for x in gc) or [x for x, _ in clipped] != [x for x, _ in full] \
+                or any(sc.shape != gc.shape for _, sc in clipped) or any(sf.shape != gf.shape for _, sf in full):
+            ctx.verdict('pointwise_independent', False, cls=cls,
+                        detail='clipped grid %r is not part of the native grid, or spectra %r (full computation: %r) / their shapes differ'
+                               % (gc.tolist()[:6], [x for x, _ in clipped], [x for x, _ in full]), vector=v)
+            continue
+        idx = [int(np.where(gf == x)[0][0]) for x in gc]
+        bad = [(lab, float(gc[k]), float(sc[k]), float(sf[i])) for (lab, sc), (_, sf) in zip(clipped, full)
+               for k, i in enumerate(idx) if not close(sc[k], sf[i], rel=REL)]
+        ctx.verdict('pointwise_independent', not bad, cls=cls,
+                    detail='%d of %d values differ, e.g. (spectrum, wn, restricted, full) %r' % (len(bad), len(idx) * len(full), bad[:2]), vector=v)
+        if cls0 is None or len(gc) < 2:
+            continue
+        worst = None
+        for (lab, sc), (_, sf) in zip(clipped, full):
+            bf = np.asarray(binner.bin_model((gf, sf, None, None))[1])
+            bc = np.asarray(binner.bin_model((gc, sc, None, None))[1])
+            if worst is None or not all(same(x, y) for x, y in zip(bc, bf)):
+                worst = (lab, bc, bf)
+        lab, bc, bf = worst
+        ctx.verdict('binning_commutes', all(same(x, y) for x, y in zip(bc, bf)), cls='model:%s:%s%s' % (kind, '' if entry == 'model' else entry + ':', cls0),
+                    detail='%s: binned(restricted) %r != binned(full) %r' % (lab, [float(x) for x in bc], [float(x) for x in bf]), vector=v)
+
+
+MODEL_ENTRIES = ('model', 'model_contrib', 'model_full_contrib')
+
+
+def entry_spectra(entry, r):
+    """what an entry point of a forward model returned -> grid, [(label, spectrum)]; a malformed answer is an empty list"""
+    try:
+        g = np.asarray(r[0], dtype=float)
+        if entry == 'model':
+            return g, [('all', np.asarray(r[1], dtype=float))]
+        if entry == 'model_contrib':
+            return g, [(str(k), np.asarray(x[0], dtype=float)) for k, x in r[1].items()]
+        return g, [('%s:%s' % (k, x[0]), np.asarray(x[1], dtype=float)) for k, lst in r[1].items() for x in lst]
+    except Exception:
+        return np.zeros(0), []
 
 
 def run_bin_vectors(ctx, vecs, quick):
@@ -917,7 +945,9 @@ def run_saturation(ctx, results, q):
 # ----------------------------------------------------------------------------
 
 HIST_MUTANTS = tuple('Ref_request_%s_%s' % (k, q) for k in ('size', 'first', 'ends', 'points') for q in ('grid', 'sed', 'op')) + \
-    tuple('Ref_clip_%s_%s' % (k, q) for k in ('size', 'first') for q in ('sed', 'op')) + ('Ref_kept_across_full',)
+    tuple('Ref_clip_%s_%s' % (k, q) for k in ('size', 'first') for q in ('sed', 'op')) + ('Ref_kept_across_full',) + \
+    tuple('Ref_slip_%s_%s' % (k, e) for k in ('swap', 'nocut') for e in ('model', 'contrib', 'full')) + \
+    tuple('Ref_slip_%s_%s' % (k, e) for k in ('left', 'leftfail') for e in ('contrib', 'full'))
 HIST_ALPHABETS = ('U', 'G')
 
 
@@ -930,11 +960,12 @@ def hist_jobs(tier):
 
 def check_history_design(ctx, label, res):
     """one TLC run (-continue): the Hold* invariants hold for the memo-free design and for memos keyed on the requested
-    points; exactly the 17 under-keyed memos are refuted by the window alphabet"""
+    points; exactly the 17 under-keyed memos and the 10 slips of an entry point (clip arguments exchanged, cutoff flag
+    ignored, contribution list left changed after a served / a refused per-component evaluation) are refuted"""
     ctx.add_tlc(label, res)
     got = set(re.findall(r'Invariant (\S+) is violated', res.out))
     if got != set(HIST_MUTANTS):
-        raise Machinery('GridHistory (%s): expected TLC to refute exactly the %d memo mutants; not refuted %r, unexpectedly violated %r'
+        raise Machinery('GridHistory (%s): expected TLC to refute exactly the %d design mutants; not refuted %r, unexpectedly violated %r'
                         % (label, len(HIST_MUTANTS), sorted(set(HIST_MUTANTS) - got), sorted(got - set(HIST_MUTANTS))))
     if res.distinct == 0 or res.depth < 4:
         raise Machinery('vacuous: GridHistory (%s) explored %d states to depth %d' % (label, res.distinct, res.depth))
@@ -970,6 +1001,10 @@ def validate_hist_events(ctx, fxh, canary=True):
     extra = []
     if cand:
         extra = [dict(cand[0], dev=cand[0]['tol'] + 5, id=len(evs)), dict(cand[-1], lo=cand[-1]['lo'] + 1, id=len(evs) + 1)]
+        # ... and a per-component evaluation that returns the spectra of a truncated contribution list
+        pc = [e for e in cand if e['entry'] != 'model' and len(e['got']) > 1]
+        if pc:
+            extra.append(dict(pc[0], got=pc[0]['got'][-1:], id=len(evs) + 2))
     _, bad, res = validate_trace('Trace_GridHistory', 'Trace_GridHistory.cfg', evs + extra, timeout=900)
     ctx.add_tlc('trace-grid-history', res, counts=False)
     if res.postcondition_false and not bad:
@@ -978,6 +1013,7 @@ def validate_hist_events(ctx, fxh, canary=True):
     bad = [x for x in bad if x['id'] < len(evs)]
     res.printed = [pr for pr in res.printed if not (isinstance(pr[1], dict) and pr[1].get('id', -1) >= len(evs))]
     classes = {c['id']: c['cls'] for c in res.tagged('CLS')}
+    eclasses = {c['id']: c['ecls'] for c in res.tagged('CLS')}
     if len(classes) != len(evs):
         raise Machinery('history trace spec classified %d of %d events' % (len(classes), len(evs)))
     fxh.inexact += sum(1 for c in res.tagged('CLS') if not c['exact'])
@@ -985,15 +1021,18 @@ def validate_hist_events(ctx, fxh, canary=True):
     for x in bad:
         why.setdefault(x['id'], []).append(x['why'])
     ctx.traces += len(evs)
-    count = {}
+    count, ecount = {}, {}
     for e, (_, name, detail, vec) in zip(evs, fxh.events):
         c = classes[e['id']]
         kind = name.split(':')[0]
         count[(kind, c)] = count.get((kind, c), 0) + 1
+        ec = eclasses[e['id']]
+        ecount[(e['entry'], ec)] = ecount.get((e['entry'], ec), 0) + 1
         w = why.get(e['id'], [])
-        ctx.verdict('trace_history_equals_full', not w, cls='histtrace:%s:%s' % (name, c),
+        ctx.verdict('trace_history_equals_full', not w, cls='histtrace:%s:%s%s' % (name, c, '' if e['entry'] == 'model' and ec in ('first', 'same-entry-point') else ':%s:%s' % (e['entry'], ec)),
                     detail='TLC rejected %r: returned native[%r..%r] (%d points); %s' % (w, e['lo'], e['hi'], e['n'], detail), vector=vec)
-    ctx.note('history evaluations by class (TLC): %r' % ({'%s:%s' % k: v for k, v in sorted(count.items())},))
+    ctx.note('history evaluations by class (TLC): %r; by entry point: %r' % ({'%s:%s' % k: v for k, v in sorted(count.items())},
+                                                                             {'%s:%s' % k: v for k, v in sorted(ecount.items())}))
     if not canary:
         return count
     if not ctx.has_violations():
@@ -1003,10 +1042,18 @@ def validate_hist_events(ctx, fxh, canary=True):
         for c in ('after-full-grid', 'full-after-window', 'same-start-other-length', 'same-grid-again'):
             if not any(k[1] == c for k in count):
                 raise Machinery('vacuous: no evaluation of class %s in the history walks' % c)
+        for k in (('model', 'model-after-per-component'), ('contrib', 'per-component-after-model'), ('full', 'per-component-after-model'),
+                  ('contrib', 'per-component-after-other'), ('full', 'per-component-after-other'), ('full', 'same-entry-point'), ('contrib', 'same-entry-point')):
+            if not ecount.get(k):
+                raise Machinery('vacuous: no evaluation through %s of class %s in the history walks' % k)
     if extra:
         if (len(evs), 'value') not in canary_bad or (len(evs) + 1, 'clip') not in canary_bad:
             if cand[0]['id'] not in why and cand[-1]['id'] not in why:
                 raise Machinery('canary accepted: history trace validation is vacuous (%r)' % (sorted(canary_bad),))
+        if len(extra) > 2 and (len(evs) + 2, 'spectra') not in canary_bad and pc[0]['id'] not in why:
+            raise Machinery('canary accepted: a per-component evaluation over a truncated contribution list passed the history trace validation')
+        if len(extra) < 3 and not ctx.has_violations():
+            raise Machinery('no per-component evaluation of a long-lived model on a restricted grid available for the canary')
     elif not ctx.has_violations():
         raise Machinery('no evaluation of a long-lived model on a restricted grid available for the history canary')
     return count
@@ -1019,14 +1066,20 @@ def run_histories(ctx, exports, q):
     rng = random.Random(ctx.seed * 6007 + 29)
     nbeh = 0
     try:
-        # binding C: every exported behaviour on one long-lived model of every kind
+        # binding C: every exported sequence of requests on one long-lived model of every kind; TLC exports each of them
+        # with every sequence of entry points (model / model_contrib / model_full_contrib): the replays take them in turn
+        turn = rng.randrange(27)
         for a in HIST_ALPHABETS:
             alpha = fxh.alphas[a]
-            for i, b in enumerate(behs[a]):
-                ws = [e['w'] for e in b['evals']]
+            groups = {}
+            for b in behs[a]:
+                groups.setdefault(tuple(e['w'] for e in b['evals']), []).append(b)
+            for i, (ws, variants) in enumerate(groups.items()):
+                variants.sort(key=lambda b: [e['e'] for e in b['evals']])
                 # quick tier: every ordered pair of requests that TLC reports as colliding for an under-keyed memo (same
-                # size / first point / end points; also with the full grid in between) on every kind, a third of the rest
-                collide = (ws[0], ws[-1]) in alpha.collide
+                # size / first point / end points; also with the full grid in between) and every pair that starts with a
+                # refused request on every kind, a third of the rest
+                collide = (ws[0], ws[-1]) in alpha.collide or (len(ws) == 2 and ws[0] in alpha.refused)
                 for kind in fh.KINDS:
                     if q and len(ws) == 3 and (not collide or (i + fh.KINDS.index(kind)) % 2):
                         continue
@@ -1034,9 +1087,15 @@ def run_histories(ctx, exports, q):
                         continue
                     T = rng.choice(fh.T_VALUES[kind])
                     mix = rng.choice(fh.MIX_VALUES[kind])
-                    fh.replay_behaviour(fxh, alpha, kind, T, mix, b['evals'])
+                    turn += 1
+                    fh.replay_behaviour(fxh, alpha, kind, T, mix, variants[turn % len(variants)]['evals'])
                     nbeh += 1
-        # Functional walks: request, temperature and mixing ratio change on one long-lived model
+        if not ctx.has_violations():
+            for k in [(e, r) for e in fh.ENTRIES for r in ('after-refused',)] + \
+                     [(e, '%s-after-%s' % (e, p)) for e in fh.ENTRIES for p in fh.ENTRIES if p != e] + [(e, e) for e in fh.ENTRIES]:
+                if fxh.count.get(k, 0) < 3:
+                    raise Machinery('vacuous: only %d replayed evaluations through %s of class %s' % (fxh.count.get(k, 0), k[0], k[1]))
+        # Functional walks: request, temperature and mixing ratio / entry point change on one long-lived model
         scs = fh.scenarios(fxh, thorough=not q)
         _t(ctx, 'history behaviours replayed')
         nw = history.run_history(ctx, scs, 12 if q else 40)
@@ -1051,7 +1110,8 @@ def run_histories(ctx, exports, q):
         raise Machinery('history fixtures are not optically thin (the exp(-10) cut-off could fire): %r' % (fxh.not_thin[:3],))
     ctx.note('histories: %d behaviours of EX_GridHistory replayed on long-lived models, %d set/eval walks over %d scenarios, '
              '%d trace events, %d full-grid references of fresh models; %d evaluations returned a grid other than the documented '
-             'clip Grid!GClip of the request (not prescribed by the statement)' % (nbeh, nw, len(scs), len(fxh.events), fxh.nrefs, fxh.inexact))
+             'clip Grid!GClip of the request (not prescribed by the statement); replayed evaluations by entry point: %r'
+             % (nbeh, nw, len(scs), len(fxh.events), fxh.nrefs, fxh.inexact, {'%s:%s' % k: v for k, v in sorted(fxh.count.items())}))
     ctx.add_sample(dict(history_event={k: (v if not isinstance(v, list) or len(v) < 8 else v[:8] + ['...']) for k, v in fxh.events[0][0].items()},
                         behaviour=behs['U'][-1]))
 
@@ -1135,10 +1195,12 @@ def run(ctx):
     ctx.bounds['saturation'] = ('all patterns of optical depths {0,1,(6,)12} x 2-3 contributions x 3-4 wavenumber zones, every computed '
                                 'subset / sub-range / observation clip (TLC); real Transmission and Emission models with 2-4 '
                                 'contributions (molecules, user-defined table, CIA, Rayleigh) on different grids, 5-10 layers')
-    ctx.bounds['histories'] = ('all sequences of 2 requests (quick: plus 3 with the full grid in between; thorough: all of 3) over 8 requests x 2 '
+    ctx.bounds['histories'] = ('all sequences of 2 requests (quick: plus 3 with the full grid in between; thorough: all of 3) over 9 requests '
+                               '(one of them refused: no native point in reach) x 3 entry points (model, model_contrib, model_full_contrib: '
+                               'every sequence of entry points exported, taken in turn by the replays) x 2 '
                                'window alphabets (uniform and constant-resolution-like 20-point native grids, second molecule on 6-7 '
-                               'points) on 6-layer emission / direct-image / transmission models; TLC-generated walks (depth 9) over '
-                               'request x temperature x mixing ratio')
+                               'points) on 6-layer emission / direct-image / transmission models with two contributions (absorption of two '
+                               'molecules, Rayleigh); TLC-generated walks (depth 9) over request x temperature x (mixing ratio | entry point)')
     ctx.assumptions = ['histories: every model object owns its cross-section objects (installed in the OpacityCache singleton through '
                        'clear_cache / add_opacity for its own evaluations); optically thin fixtures (the licensed cut-off never fires): '
                        'equality to 1e-12 with the full native computation of a freshly built model',
